@@ -603,7 +603,7 @@ var console = &vk.Capture{}
 
 type observed struct {
 	Probes   map[string]map[string]string
-	CallerOn map[string][]bool // appender name -> per received event: did it carry a file name
+	CallerOn map[string][]bool  // appender name -> per received event: did it carry a file name
 	Received map[string][]int64 // appender name -> ids
 	Files    map[string]bool
 	Console  string
@@ -1050,7 +1050,6 @@ func TestC15_Mutations(t *testing.T) {
 		}
 	})
 }
-
 
 // TestRegress_C15: shrunk failures found before the fix: commits.
 func TestRegress_C15(t *testing.T) {
